@@ -512,7 +512,22 @@ fn where_constant_twins(rng: &mut ChaCha8Rng, out: &mut UnitOut, only: Option<us
         let dv = [0.25, 0.5, 2.0, 4.0][rng.gen_range(0..4)];
         // template with B standing for the right operand, so that it can be routed through a second constant
         let dv2 = [2.0, 4.0, 0.5][rng.gen_range(0..3)];
-        let (value, template, shape): (f64, String, &str) = match rng.gen_range(0..9) {
+        // a run-time non-negative integer (a length) as an operand: n / 2 is a half, not a truncated quotient
+        let n_items = [3usize, 5, 7, 6][rng.gen_range(0..4)];
+        let mut prelude = String::new();
+        let (value, template, shape): (f64, String, &str) = match rng.gen_range(0..12) {
+            9 => {
+                prelude = format!("    let AA = [{}]\n", vec!["7"; n_items].join(", "));
+                (n_items as f64 / 2.0, "len(AA) / 2".to_string(), "len / 2")
+            }
+            10 => {
+                prelude = format!("    let AA = [{}]\n", vec!["7"; n_items].join(", "));
+                (n_items as f64 / 4.0 * b, "len(AA) / 4 * B".to_string(), "len / 4 * b")
+            }
+            11 => {
+                prelude = format!("    let AA = [{}]\n", vec!["7"; n_items].join(", "));
+                ((n_items as f64 - b) / 2.0, "(len(AA) - B) / 2".to_string(), "(len - b) / 2")
+            }
             7 => (b / dv / dv2, format!("B / {dv} / {dv2}"), "a / d / e"),
             8 => (b / dv * d, format!("B / {dv} * {td}"), "a / d * e"),
             0 => (a - b, format!("{ta} - B"), "a - b"),
@@ -537,12 +552,12 @@ fn where_constant_twins(rng: &mut ChaCha8Rng, out: &mut UnitOut, only: Option<us
         let body = |coef: &str, wh: &str| format!("min {coef} * x + y\ns.t.\n    {coef} * x + 2 * y <= 12\n    x + y >= 1\n{wh}define\n    x, y as Real(0, 10)\n");
         let computed = if via_second {
             // the right operand goes through a constant of its own
-            body("c", &format!("where\n    let p = {tb}\n    let c = {}\n", template.replace('B', "p")))
+            body("c", &format!("where\n{prelude}    let p = {tb}\n    let c = {}\n", template.replace('B', "p")))
         } else {
-            body("c", &format!("where\n    let c = {expr}\n"))
+            body("c", &format!("where\n{prelude}    let c = {expr}\n"))
         };
-        let literal = body("c", &format!("where\n    let c = {lit}\n"));
-        let inline = body(&format!("({expr})"), "");
+        let literal = body("c", &format!("where\n{prelude}    let c = {lit}\n"));
+        let inline = body(&format!("({expr})"), &if prelude.is_empty() { String::new() } else { format!("where\n{prelude}") });
         let compile = |t: &str| -> Result<rooc::LinearModel, String> {
             let r = std::panic::catch_unwind(|| RoocParser::new(t.to_string()).parse_and_transform(vec![], &indexmap::IndexMap::new()));
             match r {
@@ -710,7 +725,7 @@ impl Driver for C10 {
         }
     }
     fn rule(&self) -> String {
-        "(a) Exp::simplify, Exp::flatten and flatten().simplify() on every expression tree with <= 2 operators over leaves {x, y, 0, 1, -0.0, 2, 0.5, 3} and operators neg, abs, not (both forms), + - * /, min, max, and/or (n-ary and BinOp forms), xor, implies, iff (units 0..99 sweep this finite set completely at every run), plus random trees of depth <= 4 with 1..3-ary and/or/min/max, and absorbing operands (0 * e, e * 0, false and e, true or e) whose other operand hides a division by zero or by a variable under a division by a constant, a block, a sum or a product; each is evaluated exactly at the 16 assignments x,y in {0,1,2,-3/2}: defined values must be preserved, a defined expression must stay defined, a division by zero must not disappear, simplify must be idempotent. (b) G-model models whose literal products c*e are re-spelled as c*x, x*c, -(-c)*x, (0-(-c))*x, (c/2+c/2)*x, x/(1/c), 1*c*x, -((-c)*x), -(x) for c = -1, (c*d/d)*x with d of a few millionths (one model in five gets an extra row c*(x - k) rel r with c in {-1, -2, 2} so that products over sums with a constant occur): both twins are compiled; they must be accepted or rejected alike (same error kind) and, when accepted, accept the same assignments with the same best objective on the C01 point sets. (c) a coefficient computed in the where-section from integer and decimal literals (a - b, a + b, a * b, a / d, (a - b) * d, -a + b, a - b - d, a / d / e, a / d * e, optionally through a second constant), the same value written as a literal, and the same expression written inline must give the same coefficients (1e-12). non-trivial = expression with at least one decided assignment / twin pair with >= 3 decided assignments".into()
+        "(a) Exp::simplify, Exp::flatten and flatten().simplify() on every expression tree with <= 2 operators over leaves {x, y, 0, 1, -0.0, 2, 0.5, 3} and operators neg, abs, not (both forms), + - * /, min, max, and/or (n-ary and BinOp forms), xor, implies, iff (units 0..99 sweep this finite set completely at every run), plus random trees of depth <= 4 with 1..3-ary and/or/min/max, and absorbing operands (0 * e, e * 0, false and e, true or e) whose other operand hides a division by zero or by a variable under a division by a constant, a block, a sum or a product; each is evaluated exactly at the 16 assignments x,y in {0,1,2,-3/2}: defined values must be preserved, a defined expression must stay defined, a division by zero must not disappear, simplify must be idempotent. (b) G-model models whose literal products c*e are re-spelled as c*x, x*c, -(-c)*x, (0-(-c))*x, (c/2+c/2)*x, x/(1/c), 1*c*x, -((-c)*x), -(x) for c = -1, (c*d/d)*x with d of a few millionths (one model in five gets an extra row c*(x - k) rel r with c in {-1, -2, 2} so that products over sums with a constant occur): both twins are compiled; they must be accepted or rejected alike (same error kind) and, when accepted, accept the same assignments with the same best objective on the C01 point sets. (c) a coefficient computed in the where-section from integer and decimal literals (a - b, a + b, a * b, a / d, (a - b) * d, -a + b, a - b - d, a / d / e, a / d * e, len(A) / 2, len(A) / 4 * b, (len(A) - b) / 2, optionally through a second constant), the same value written as a literal, and the same expression written inline must give the same coefficients (1e-12). non-trivial = expression with at least one decided assignment / twin pair with >= 3 decided assignments".into()
     }
     fn thresholds(&self, tier: Tier) -> Thresholds {
         let s = tier.pick(1, 10);
